@@ -16,6 +16,8 @@ from vlib.vsim import Meta, Unsupported, fmt
 PID = 'C12'
 RULE = ("instantiation trees: depth <= 3, 1-4 construction steps per node, repeated templates, actuals = whole ports/signals, "
         "slices, elements, .unsigned/.bitvector views, instances created inside a concurrent context, keyword order shuffled; "
+        "+ sub-cases: inout associations with typed views (text), elements of Array signals (with views) as input / output actuals, "
+        "a wrapper derived from the entity it instantiates forwarding its inherited ports; "
         "leaf logic = random concurrent / clocked expressions; 60 clocks of random inputs + 8 directed patterns per design "
         "(thorough: 200 clocks).  distinct_nontrivial = designs with >= 1 instance whose outputs took >= 4 distinct defined values.")
 ASSUMPTIONS = ["vsim executes the emitted VHDL faithfully", "the flat rendering calls the same body functions with the same "
